@@ -141,9 +141,30 @@ def build(rnd, typ, ninputs=None, same_fund_decoy=False):
         elif r < 0.85:
             leaf_script = ascript
             meta['leafkind'] = 'keyless'
-        else:
+        elif r < 0.93 or typ != 'p2tr-script':
             leaf_script = b'\x51\x69\xab' + P(k[1].x) + b'\xac'    # OP_1 OP_VERIFY OP_CODESEPARATOR <key> OP_CHECKSIG
             meta['leafkind'] = 'codesep'
+        else:
+            # one signature checked N times (<key> (2DUP CHECKSIGVERIFY)*(N-1) CHECKSIG): BIP342 allows 50 + (serialized size of the whole
+            # witness: arguments, script, control block, annex) units and charges 50 per check, so N sits at / one over that budget
+            sht = rnd.choice([0, 0, 1, 0x81, 0x83])
+            annex = (b'\x50' + bytes(rnd.getrandbits(8) for _ in range(rnd.choice([0, 1, 21, 48, 49, 50, 51, 100, 253])))) if rnd.random() < 0.4 else None
+
+            def cs(n):
+                return 1 if n < 253 else 3
+
+            def budget(n):
+                scr = 34 + 3 * (n - 1) - (n - 1) + 1          # <32-byte key> + (2DUP CHECKSIGVERIFY)*(n-1) + CHECKSIG
+                items = [64 + (1 if sht else 0), scr, 33 + 32 * depth] + ([len(annex)] if annex else [])
+                return 50 + cs(len(items)) + sum(cs(x) + x for x in items)
+            n = 1
+            while 50 * (n + 1) <= budget(n + 1):
+                n += 1
+            over = rnd.random() < 0.3
+            n = n + 1 if over else (n if rnd.random() < 0.7 else max(1, n - 1))
+            leaf_script = P(k[1].x) + b'\x6e\xad' * (n - 1) + b'\xac'
+            meta['leafkind'] = 'sigreuse'
+            meta.update(pre_sht=sht, pre_annex=annex, nchecks=n, over_budget=over)
         leafver = 0xc0
         if typ == 'p2tr-script' and rnd.random() < 0.06:
             leafver = rnd.choice([0xc2, 0x50 & 0xfe, 0xfe])
@@ -202,6 +223,8 @@ def build(rnd, typ, ninputs=None, same_fund_decoy=False):
     elif typ == 'p2tr-script':
         sht = rnd.choice([0, 0, 1, 2, 3, 0x81, 0x83])
         annex = (b'\x50' + bytes(rnd.getrandbits(8) for _ in range(rnd.randint(0, 5)))) if rnd.random() < 0.25 else None
+        if 'pre_sht' in meta:
+            sht, annex = meta['pre_sht'], meta['pre_annex']
         ls = meta['leaf_script']
         csp = 0xffffffff
         for n_, e in enumerate(R.decode(ls)):
@@ -216,7 +239,7 @@ def build(rnd, typ, ninputs=None, same_fund_decoy=False):
             return secp.schnorr_sign(key.d, hh) + (bytes([sht]) if sht else b'')
         control = bytes([meta['leafver'] | meta['par']]) + k[0].x + b''.join(meta['path'])
         lk = meta['leafkind']
-        if lk in ('checksig', 'checksigverify', 'codesep'):
+        if lk in ('checksig', 'checksigverify', 'codesep', 'sigreuse'):
             args = [ssig(k[1])]
         elif lk == 'checksigadd':
             args = [ssig(k[2]), ssig(k[1])]
